@@ -520,6 +520,112 @@ Proof.
       rewrite ACC. destruct (sc_lines c) as [|l0 lr] eqn:EL; [congruence|]. rewrite <- app_assoc. reflexivity.
 Qed.
 
+(* the same loop over cues that are FOLLOWED by further lines (e.g. a last cue without any blank line after it, as
+   SRTWriter writes it): the cues are consumed one by one, then the loop continues on the tail *)
+Lemma srt_loop_cues_tail : forall cues tail fuel acc R,
+  (length cues < fuel)%nat -> forallb srt_cue_dom cues = true ->
+  (match tail with [] => False | l :: _ => is_blank l = false end) ->
+  (forall f acc', (0 < f)%nat -> srt_loop f tail acc' = Ok (acc' ++ R)) ->
+  srt_loop fuel (flat_map srt_cue_lines cues ++ tail) acc = Ok (acc ++ srt_expected_caps cues ++ R).
+Proof.
+  induction cues as [|c t IH]; intros tail fuel acc R Hf Hd Htl HT.
+  - cbn [flat_map srt_expected_caps app]. apply HT. cbn [length] in Hf. lia.
+  - destruct fuel as [|f]; [cbn in Hf; lia|].
+    cbn [forallb] in Hd. apply andb_true_iff in Hd. destruct Hd as [Hc Ht].
+    pose proof Hc as Hc'. unfold srt_cue_dom in Hc'.
+    apply andb_true_iff in Hc'. destruct Hc' as [Hc' Hne].
+    apply andb_true_iff in Hc'. destruct Hc' as [Hc' Hl].
+    apply andb_true_iff in Hc'. destruct Hc' as [Hc' H1].
+    apply andb_true_iff in Hc'. destruct Hc' as [Hi H0].
+    cbn [flat_map]. rewrite <- app_assoc. set (rest := flat_map srt_cue_lines t ++ tail).
+    assert (Hrest : match rest with [] => True | l :: _ => is_blank l = false end).
+    { unfold rest. pose proof (srt_lines_first_not_blank t Ht) as F.
+      destruct (flat_map srt_cue_lines t) as [|l0 lr]; [cbn [app]; destruct tail; [contradiction|exact Htl]|exact F]. }
+    assert (Rne : rest <> []).
+    { unfold rest. destruct (flat_map srt_cue_lines t); [cbn [app]; destruct tail; [contradiction|discriminate]|discriminate]. }
+    pose proof (ftl_cue c rest Hc Hrest) as FT.
+    assert (HD : srt_cue_lines c ++ rest = dec_nonneg (sc_idx c) :: srt_timing c :: (sc_lines c ++ repeat [] (S (sc_gap c))) ++ rest)
+      by reflexivity.
+    rewrite HD in *. cbn [srt_loop].
+    assert (ID : isdigit (dec_nonneg (sc_idx c)) = true) by (apply (isdigit_padded 0); lia).
+    rewrite ID. cbn [negb].
+    destruct (srt_timing_parse c H0 H1) as [a [b [Na [Nb [Sa Sb]]]]]. cbv zeta in Na, Nb.
+    change (nth_str (dec_nonneg (sc_idx c) :: srt_timing c :: (sc_lines c ++ repeat [] (S (sc_gap c))) ++ rest) 1)
+      with (@Ok str (srt_timing c)).
+    cbn [bind]. rewrite Na. cbn [bind]. rewrite Sa. cbn [bind]. rewrite Nb. cbn [bind]. rewrite Sb. cbn [bind].
+    rewrite FT. clear FT.
+    cbn [srt_expected_caps flat_map]. fold (srt_expected_caps t).
+    set (n := length (sc_lines c)). set (g := sc_gap c).
+    assert (LEN : length (srt_cue_lines c) = (2 + n + S g)%nat).
+    { unfold srt_cue_lines. cbn [length]. rewrite app_length, repeat_length. unfold n, g. lia. }
+    assert (Hne' : sc_lines c <> []) by (destruct (sc_lines c); [discriminate Hne|discriminate]).
+    assert (ACC : forall a : list rcap, match sc_lines c with
+                  | [] => a
+                  | _ :: _ => a ++ [(us (srt_instant (sc_t0 c)), us (srt_instant (sc_t1 c)), sc_lines c)]
+                  end = a ++ [(us (srt_instant (sc_t0 c)), us (srt_instant (sc_t1 c)), sc_lines c)])
+      by (intros a0; destruct (sc_lines c); [congruence|reflexivity]).
+    destruct rest as [|r0 rr] eqn:ER; [congruence|].
+    rewrite LEN.
+    assert (SL : slice 2 (2 + n + S g - 1) (dec_nonneg (sc_idx c) :: srt_timing c :: (sc_lines c ++ repeat [] (S g)) ++ r0 :: rr)
+                 = sc_lines c ++ repeat [] g).
+    { unfold slice. replace (2 + n + S g - 1)%nat with (S (S (n + g))) by lia.
+      cbn [firstn skipn]. rewrite <- app_assoc.
+      rewrite firstn_app. replace (n + g - length (sc_lines c))%nat with g by (unfold n; lia).
+      rewrite firstn_all2 by (unfold n; lia).
+      change (repeat [] (S g)) with (@nil Z :: repeat [] g).
+      assert (RP : forall k (x : str) tl, firstn k (repeat x k ++ tl) = repeat x k).
+      { clear. induction k as [|k IHk]; intros x tl; [reflexivity|]. cbn [repeat app firstn]. rewrite IHk. reflexivity. }
+      assert (RS : forall k, @nil Z :: repeat [] k = repeat [] k ++ [[]]).
+      { clear. induction k as [|k IHk]; [reflexivity|]. cbn [repeat app]. rewrite <- IHk. reflexivity. }
+      rewrite RS. rewrite <- app_assoc. rewrite RP. reflexivity. }
+    rewrite SL. rewrite srt_keep_lines by assumption.
+    assert (SK : skipn (2 + n + S g) (dec_nonneg (sc_idx c) :: srt_timing c :: (sc_lines c ++ repeat [] (S g)) ++ r0 :: rr) = r0 :: rr).
+    { replace (2 + n + S g)%nat with (S (S (n + S g))) by lia. cbn [skipn].
+      rewrite skipn_app. rewrite skipn_all2 by (rewrite app_length, repeat_length; unfold n; lia).
+      rewrite app_length, repeat_length. replace (n + S g - (length (sc_lines c) + S g))%nat with 0%nat by (unfold n; lia).
+      reflexivity. }
+    rewrite SK. rewrite <- ER. unfold rest.
+    rewrite (IH tail f _ R) by (first [cbn [length] in Hf; lia | exact Ht | exact Htl | exact HT]).
+    rewrite ACC. destruct (sc_lines c) as [|l0 lr] eqn:EL; [congruence|]. rewrite <- !app_assoc. reflexivity.
+Qed.
+
+(* a LAST cue with no blank line after it: index line, timing line, text lines, end of the document *)
+Lemma srt_loop_last_cue : forall c f acc, srt_cue_dom c = true -> (0 < f)%nat ->
+  srt_loop f (dec_nonneg (sc_idx c) :: srt_timing c :: sc_lines c) acc
+  = Ok (acc ++ [(us (srt_instant (sc_t0 c)), us (srt_instant (sc_t1 c)), sc_lines c)]).
+Proof.
+  intros c f acc Hc Hf. destruct f as [|f]; [lia|].
+  pose proof Hc as Hc'. unfold srt_cue_dom in Hc'.
+  apply andb_true_iff in Hc'. destruct Hc' as [Hc' Hne].
+  apply andb_true_iff in Hc'. destruct Hc' as [Hc' Hl].
+  apply andb_true_iff in Hc'. destruct Hc' as [Hc' H1].
+  apply andb_true_iff in Hc'. destruct Hc' as [Hi H0].
+  cbn [srt_loop].
+  assert (ID : isdigit (dec_nonneg (sc_idx c)) = true) by (apply (isdigit_padded 0); lia).
+  rewrite ID. cbn [negb].
+  destruct (srt_timing_parse c H0 H1) as [a [b [Na [Nb [Sa Sb]]]]]. cbv zeta in Na, Nb.
+  change (nth_str (dec_nonneg (sc_idx c) :: srt_timing c :: sc_lines c) 1) with (@Ok str (srt_timing c)).
+  cbn [bind]. rewrite Na. cbn [bind]. rewrite Sa. cbn [bind]. rewrite Nb. cbn [bind]. rewrite Sb. cbn [bind].
+  assert (FT : ftl (dec_nonneg (sc_idx c) :: srt_timing c :: sc_lines c) false 0 = S (2 + length (sc_lines c))).
+  { cbn [ftl]. rewrite digits_not_blank by (first [apply dec_nonneg_nonempty | apply dec_nonneg_digits; lia]).
+    rewrite srt_timing_not_blank by exact H0.
+    rewrite <- (app_nil_r (sc_lines c)). rewrite ftl_nonblank.
+    2:{ apply forallb_forall. intros l Hin. rewrite forallb_forall in Hl. specialize (Hl l Hin).
+        unfold text_line_ok in Hl. apply andb_true_iff in Hl. destruct Hl as [_ Hv].
+        rewrite visible_not_blank by exact Hv. reflexivity. }
+    cbn [ftl]. rewrite app_nil_r. lia. }
+  rewrite FT.
+  assert (SL : slice 2 (S (2 + length (sc_lines c)) - 1) (dec_nonneg (sc_idx c) :: srt_timing c :: sc_lines c) = sc_lines c).
+  { unfold slice. replace (S (2 + length (sc_lines c)) - 1)%nat with (S (S (length (sc_lines c)))) by lia.
+    cbn [firstn skipn]. apply firstn_all. }
+  rewrite SL.
+  assert (Hne' : sc_lines c <> []) by (destruct (sc_lines c); [discriminate Hne|discriminate]).
+  pose proof (srt_keep_lines (sc_lines c) 0 Hne' Hl) as K. cbn [repeat] in K. rewrite app_nil_r in K. rewrite K.
+  assert (SK : skipn (S (2 + length (sc_lines c))) (dec_nonneg (sc_idx c) :: srt_timing c :: sc_lines c) = []).
+  { apply skipn_all2. cbn [length]. lia. }
+  rewrite SK. destruct (sc_lines c) as [|l0 lr] eqn:EL; [congruence|]. destruct f; reflexivity.
+Qed.
+
 Lemma blank_lines_render : forall crlf n,
   concat (repeat (nl_of crlf) n) = flat_map (fun l : str => l ++ nl_of crlf) (repeat [] n).
 Proof.
